@@ -7,13 +7,109 @@ HOOK_COMMITS = ["0ceead4", "1461f0f", "3824c48", "e9167ce"]
 
 # id -> (level, technique, engine, text, note, design_ref)
 CHECKS = {
+ "C01": ("model_checking", "controlled-scheduler exploration of the real Workload::exec (all schedules within d demotions, harvest mode: every explored schedule yields a font) + exhaustive enumeration of owned hash seeds x pool sizes over every repo fixture",
+         "engine-A",
+         "Three owned dimensions: (1) every schedule of the real scheduler loop within d priority demotions of two base orders on generated sources — each yields a font, all bytes must agree with the inline build; (2) hash seeds 0..S through a getrandom interposer for every compilable repo fixture and the generated family under several option sets; (3) pool sizes with the real rayon pool (labelled uncontrolled). States/transitions/executions are reported.",
+         "Sequentially consistent exploration; rayon replaced by a k-slot pool model in (1); real-pool schedules in (3) are sampled, the exhaustive schedule claim rests on (1). SOURCE_DATE_EPOCH fixed. Seeds outside the enumerated set and schedules beyond the demotion bound are not covered.",
+         "DESIGN.md §2.1, §2.2, §3 C01"),
+ "C02": ("model_checking", "stateful DFS by re-execution of the real Workload::exec under a controlled scheduler: all schedules within d demotions, visited-state matching, happens-before (vector clock) monitor on every context access",
+         "engine-A",
+         "Every schedule of the real scheduler loop and its worker closures within d priority demotions (two base orders, pool sizes k) for a family of tiny sources that exercise each dynamic rule of handle_success; on every execution: no scheduler failure on a valid source, no deadlock, every conflicting pair of context accesses ordered by happens-before.",
+         "Hooks (cfg fontc_verif) announce each synchronisation step; exploration is sequentially consistent; no preemption inside Work::exec (ordering is judged on launch/finish edges); state merging is sound while the race monitor holds. Schedules needing more demotions than the completed d, other sources, weak memory are not covered.",
+         "DESIGN.md §2.2, §3 C02"),
+ "C03": ("exploration", "bounded-exhaustive enumeration of small variable designs (master sets x glyph kinds x perturbations x sparseness) compiled by the real compiler, judged by an independent gvar/IUP evaluator against the source drawing",
+         "small-scope-compile",
+         "Every design of the stated alphabet is compiled and every glyph instantiated at every master location by an evaluator written from the OpenType spec (cross-checked against skrifa); outlines must equal the master's drawing within the derived rounding/IUP bound, exactly at the default.",
+         "Trusted: otvar (own decoder of glyf/gvar/IUP; skrifa disagreement = machinery error). Cubic sources are compared by sampled distance with a cu2qu allowance. More than 3 axes, larger master sets, open contours not covered.",
+         "DESIGN.md §3 C03"),
+ "C04": ("exploration", "bounded-exhaustive enumeration of advance/height/metric assignments per master, compiled by the real compiler, judged by an independent HVAR/VVAR/MVAR evaluator",
+         "small-scope-compile",
+         "Every per-master assignment of advances, heights and each MVAR-tagged metric over a small alphabet on all listed master sets; hmtx+HVAR, vmtx+VVAR, phantom points and MVAR values at every master must equal the rounded source value within the derived bound; default-location fields exact.",
+         "Trusted: otvar ItemVariationStore / DeltaSetIndexMap evaluation (read-fonts and skrifa second opinion). Fallback-derived metrics are only judged for constancy. A third axis and composites with USE_MY_METRICS are not covered.",
+         "DESIGN.md §3 C04"),
+ "C05": ("exploration", "every compilable repo fixture x option sets compiled by the product binary and checked by an independent structural OpenType checker (container, counts, every cross-table reference)",
+         "small-scope-compile",
+         "Each successfully compiled font is checked by a hand-written sfnt container checker plus a full traversal that range-checks every glyph id, lookup/feature index, name id, region/axis index, variation index, component graph and maxp bound; skrifa is a second reader.",
+         "Trusted: otref (44 corruption tests show each defect class is reported). Sources are the repo fixtures (generated designs are added by other checks' spaces); index consistency inside one layout subtable is not checked.",
+         "DESIGN.md §2.4, §3 C05"),
+ "C06": ("exploration", "bounded-exhaustive enumeration of glyph sets, declared orders, export flags, component patterns, codepoints and production names; reference order computed from the design",
+         "small-scope-compile",
+         "Every permutation of every subset of the names as declared order, every export subset, every acyclic component pattern, every codepoint assignment of the alphabet; glyph count, post names, cmap (own decoder), components, GSUB/GPOS references compared with a reference computed from the source alone.",
+         "Trusted: own cmap/post readers; ufo2ft's production-name rule as reference. Glyphs-format twin not built; repeated names in glyphOrder outside the alphabet.",
+         "DESIGN.md §3 C06"),
  "C07": ("exploration", "bounded-exhaustive enumeration of master-location sets at the fontdrasil API against an independent region-scalar evaluator",
          "pure-sweeps",
          "Every set of master locations over a stated coordinate alphabet up to a stated size, every listed value vector, every insertion order (small sets): deltas reproduce masters, regions valid, model order-independent. Exhaustive inside the bound; no sampling.",
          "Trusted: the harness's own implementation of the OpenType region scalar; f64 tolerance 1e-9. Not covered: coordinates outside the alphabets, more masters than the bound.",
          "DESIGN.md §3 C07"),
+ "C08": ("exploration", "bounded-exhaustive enumeration of axis definitions (user nodes x design nodes) at the CoordConverter / avar / fvar work items and end to end through a designspace, against an own piecewise-linear reference",
+         "pure-sweeps",
+         "Every sorted node set and non-decreasing design assignment of the alphabet: conversions, round trips, avar segment maps (required entries, monotone) and fvar bounds compared with an independent piecewise-linear reference within 2^-14 (1+steepest slope).",
+         "Trusted: own piecewise-linear reference; otvar normalisation for the font-level part. Known finding: axes with a flat segment at the default (listed).",
+         "DESIGN.md §3 C08"),
+ "C09": ("exploration", "bounded-exhaustive enumeration of kerning/group configurations per master, compiled by the real compiler, judged by applying the compiled kern feature with an independent GPOS engine against the UFO kerning lookup",
+         "small-scope-compile",
+         "Every set of kerning keys over {glyph,group}x{glyph,group}, every listed group pattern per master (incl. divergent groups), every subset of masters defining a pair; for every ordered glyph pair and master the applied adjustment (all lookups, VariationIndex deltas) equals the UFO lookup on that master's own data.",
+         "Trusted: otlayout (own PairPos/ClassDef/IVS evaluation, 40 tests). Latin-only glyphs; masters without kerning are not judged.",
+         "DESIGN.md §3 C09"),
+ "C10": ("exploration", "bounded-exhaustive enumeration of anchor subsets, coordinates per master, categories and propagation modes, judged by enumerating the compiled mark/mkmk attachments with an independent GPOS engine",
+         "small-scope-compile",
+         "Every anchor subset per glyph kind, every coordinate assignment of the alphabet over 1-3 masters, explicit/inferred categories, propagate on/off: completeness, exact anchor coordinates at every master, GDEF classes and soundness (no spurious attachment).",
+         "Trusted: otlayout mark-attachment enumeration and shaping. Known finding: explicitly classified marks without a usable underscore anchor are not mkmk bases (ufo2ft parity).",
+         "DESIGN.md §3 C10"),
+ "C11": ("exploration", "bounded-exhaustive enumeration of feature programs (rule alphabet x lookups x flags x script/language blocks) x all glyph strings up to a length, reference FEA interpreter vs independent application of the compiled tables",
+         "small-scope-compile",
+         "Every program of the stated families is printed to text, compiled by fea-rs, and every glyph string up to the bound is shaped with the compiled GSUB/GPOS by an independent engine and by a second table walker; results must equal a reference interpreter working on the AST under the FEA specification.",
+         "Trusted: fearef interpreter (shares no code with fea-rs), otlayout + a second table walker (disagreement = machinery error). Constructs whose semantics the spec does not fix are excluded and listed.",
+         "DESIGN.md §3 C11"),
+ "C12": ("exploration", "bounded-exhaustive enumeration of component trees x transforms x glyph kinds under all 16 option subsets, resolved outlines compared by an independent glyf/gvar evaluator",
+         "small-scope-compile",
+         "Every acyclic component tree of the alphabet with every listed transform, under every subset of {flatten, decompose, decompose-transformed, prefer-simple off}: resolved contours (cyclic, flip-aware) and advances at both masters equal the default configuration's and the source's own resolution within one unit per nesting level.",
+         "Trusted: otvar resolve_outline (skrifa cross-check). Cubic outlines excluded (cu2qu of transformed curves legitimately differs).",
+         "DESIGN.md §3 C12"),
+ "C13": ("exploration", "bounded-exhaustive enumeration of token sequences, character strings, single edits of every corpus file and include digraphs, each parsed in an isolated worker (CPU-time watchdog, memory cap)",
+         "pure-sweeps",
+         "Every sequence of <= N lexemes, every string of <= M characters, every single edit at every token of every test file, every include digraph on <= 3 files: terminates, no panic, tree text = input, diagnostics inside their source on char boundaries, validation does not panic, cycles and over-deep includes are errors.",
+         "Trusted: the watchdog (CPU time per case) and the own include-graph DFS. Inputs outside the alphabets/lengths are not covered.",
+         "DESIGN.md §3 C13"),
+ "C14": ("exploration", "bounded-exhaustive enumeration of names/locations at the file-naming API (injectivity) plus IR-on/IR-off builds of a source family with read-back hooks on every persisted item",
+         "pure-sweeps",
+         "Every name of <= k symbols of the alphabet and every pair of kerning locations on a grid map to distinct files (also after ASCII case folding); every source of the family builds to identical bytes with and without IR emission; every item written reads back equal; distinct ids never share a file.",
+         "Hooks read each item back inside ContextItem/ContextMap::set. Non-ASCII case-only differences are recorded, not asserted.",
+         "DESIGN.md §3 C14"),
+ "C15": ("fault_enumeration", "every fault of each listed class applied at every site of a small valid source (component digraphs, XML/plist structure, designspace, glif, FEA token soup, Glyphs text), each run with the unmodified binary under timeout and memory cap",
+         "small-scope-compile",
+         "All 512 component digraphs on 3 glyphs x flag sets, deletion/duplication/replacement/truncation at every element/number/file, degenerate designspaces, malformed glifs, token soup: outcome must be success with a structurally valid font or a clean failure status with a diagnostic and no font; never a signal, uncaught panic exit, hang or left-over font.",
+         "Trusted: process exit status, otref structural check of produced fonts. 'A task panicked' with a clean exit is counted, not a violation of this property.",
+         "DESIGN.md §3 C15"),
+ "C16": ("exploration", "bounded-exhaustive enumeration of rule lists (boxes x substitution maps) at overlay_feature_variations and end to end through designspace rules, evaluated on an offset grid against a direct reading of the rules",
+         "pure-sweeps",
+         "Every list of 1-3 rules of 1-2 boxes over the interval alphabet on <= 2 axes with the listed maps: at every grid point the first output box carries exactly the union of the applicable rules' substitutions; end to end the FeatureVariations of the compiled font apply exactly the source's substitutions.",
+         "Shared edges excluded (touching boxes are disjoint by convention); chaining semantics (tier T3) not asserted. Known finding: same-input precedence after rule merging (fontTools parity).",
+         "DESIGN.md §3 C16"),
+ "C17": ("exploration", "bounded-exhaustive enumeration of glyph sequences (kinds x side bearings x advances), cmaps, vertical metrics and feature programs; every summary field recomputed from the emitted tables by hand-written readers",
+         "small-scope-compile",
+         "All sequences of glyph options up to k, every subset of the codepoint alphabet, range-boundary codepoints, feature programs of known context length: head/hhea/vhea/maxp/loca/OS/2 summary fields must equal an own recomputation from glyf/hmtx/cmap/GSUB/GPOS; a built-in sensitivity self-test perturbs 78 fields.",
+         "Trusted: own big-endian readers (cross-checked against read-fonts per glyph). Composite-of-empty boxes and unmodelled Unicode blocks are not asserted.",
+         "DESIGN.md §3 C17"),
+ "C18": ("exploration", "exhaustive enumeration of naming configurations (family/style/styleMap/instances/axis labels/FEA name blocks, static and variable) with hash-seed sweep on coinciding strings",
+         "small-scope-compile",
+         "Every combination of the naming alphabet: every name id referenced from fvar, STAT and feature parameters exists, is in the range the spec allows and carries the source's string; ids 1-6,16,17 follow the documented fallback chain on the judged configurations; output identical across owned hash seeds.",
+         "Trusted: read-fonts typed tables; the ufo2ft fallback chain as stated in the check. The case where exactly one of 16/17 coincides is not asserted.",
+         "DESIGN.md §3 C18"),
+ "C19": ("exploration", "one field at a time pushed to each boundary value of its target type on a static and a variable base; both build profiles (optimised, overflow-checked) run per case; the field is decoded from the emitted font by own readers",
+         "small-scope-compile",
+         "Every listed field x every boundary value: both binaries must agree, and the result is either a clean error or a font in which the field decodes to the rounded source value (or an equal resolved shape after decomposition).",
+         "Trusted: own glyf/gvar/IVS/GPOS readers with wide accumulators. Deliberate hhea extent clamps are not judged. Many fields are known findings (saturating OtRound in write-fonts); listed by field.",
+         "DESIGN.md §3 C19"),
+ "C20": ("exploration", "every Glyphs fixture and generated design through every route (CLI, library path, in-memory text, package) and every reformatting variant alone and pairwise; lone UFO vs one-source designspace",
+         "small-scope-compile",
+         "All 188 Glyphs fixtures, the file/package pairs and generated designs: byte equality across routes; 41 reformatting variants per source (own OpenStep parser/printer) must not change the bytes; UFO vs designspace with and without the UFO-only lib keys.",
+         "The product binary (rayon) and the harness library (inline scheduler, verif cfg) are compared directly; version stamps are equal. Variants the reader rejects are counted.",
+         "DESIGN.md §3 C20"),
 }
 
+READY = set(open('/verif/tools/ready.txt').read().split())
 NOT_YET = {}  # id -> reason
 
 def main():
@@ -21,7 +117,7 @@ def main():
     ids = [p["id"] for p in props]
     checks = []
     for i in ids:
-        if i in CHECKS:
+        if i in CHECKS and i in READY:
             level, tech, engine, text, note, ref = CHECKS[i]
             checks.append({
                 "property_id": i,
@@ -35,7 +131,7 @@ def main():
                 "technique": tech,
             })
     na = [{"property_id": i, "reason": NOT_YET.get(i, "check not built yet in this round (design in DESIGN.md §3); not claimed until it runs clean on the unchanged tree")}
-          for i in ids if i not in CHECKS]
+          for i in ids if i not in CHECKS or i not in READY]
     m = {
         "version": 1,
         "setup_cmd": "./check setup",
